@@ -71,6 +71,7 @@ func worldGen(tape *simrt.Tape, tier, focus string) *worldCase {
 		c.MaxServers = uint(tape.Range(1, 4, "maxservers"))
 	}
 	c.Verbose = tape.Bool(1, 2, "verbose")
+	c.ExactMark = tape.Bool(1, 3, "exactmark")
 	// fate table
 	nf := 8
 	for i := 0; i < nf; i++ {
@@ -290,6 +291,36 @@ func worldBody(tape *simrt.Tape, o simwork.Opts, res *simwork.Result, focus stri
 		fmt.Fprintf(os.Stderr, "DEBUG patterns before resolve run=%q skip=%q nperm=%d\n", cs.RunPatterns, cs.SkipPatterns, len(permNames))
 	}
 	cs.RunPatterns, cs.SkipPatterns = resolve(cs.RunPatterns), resolve(cs.SkipPatterns)
+	if cs.ExactMark {
+		// list one permutation of every marked case by its exact full name as well
+		// (redundant with the "**/c<i>" pattern: the marking of no case changes,
+		// but the pattern trie now holds a literal path next to the wildcard)
+		for i, m := range cs.Markings {
+			if m == 0 {
+				continue
+			}
+			count := 0
+			for _, pn := range permNames {
+				if caseIndex(pn) == i {
+					count++
+				}
+			}
+			if count < 2 {
+				continue // the wildcard pattern would be shadowed completely
+			}
+			for _, pn := range permNames {
+				if caseIndex(pn) == i {
+					if m == 1 {
+						flags.KnownFailingPatterns = append(flags.KnownFailingPatterns, pn)
+					} else {
+						flags.KnownFlakyPatterns = append(flags.KnownFlakyPatterns, pn)
+					}
+					res.Probes["marking-by-exact-name-and-wildcard"]++
+					break
+				}
+			}
+		}
+	}
 	flags.RunPatterns, flags.SkipPatterns = cs.RunPatterns, cs.SkipPatterns
 	filter := newFilter(parsePatterns(cs.RunPatterns), parsePatterns(cs.SkipPatterns))
 	selected := map[string]*conformancev1.TestCase{}
@@ -429,6 +460,39 @@ func worldBody(tape *simrt.Tape, o simwork.Opts, res *simwork.Result, focus stri
 		res.Probes["rejected: "+strings.ReplaceAll(msg, "\n", " ")]++
 		if len(w.clients) > 0 {
 			viol(focus+"/error-after-start", "Run returned an error although peers had been started: %v", runErr)
+		}
+		// a pattern list is rejected as "unmatched and possibly invalid": each
+		// rejected pattern must really be useless - there is no permutation that it
+		// matches (independent matcher) and that no other pattern of its list matches
+		if what, list, ok := strings.Cut(runErr.Error(), ": unmatched and possibly invalid patterns:\n"); ok {
+			var all []string
+			switch what {
+			case "known failing":
+				all = flags.KnownFailingPatterns
+			case "known flaky":
+				all = flags.KnownFlakyPatterns
+			case "run patterns":
+				all = flags.RunPatterns
+			case "no-run patterns":
+				all = flags.SkipPatterns
+			}
+			for _, rejected := range strings.Split(list, "\n") {
+				for _, name := range permNames {
+					if !globMatch(strings.Split(rejected, "/"), strings.Split(name, "/")) {
+						continue
+					}
+					only := true
+					for _, other := range all {
+						if other != rejected && globMatch(strings.Split(other, "/"), strings.Split(name, "/")) {
+							only = false
+						}
+					}
+					if only {
+						viol(focus+"/valid-pattern-rejected", "Run rejected the %s pattern %q as unmatched, but it is the only pattern of its list that matches permutation %q", what, rejected, name)
+						break
+					}
+				}
+			}
 		}
 		return
 	}
@@ -583,4 +647,25 @@ func lastLines(lines []string, n int) string {
 		lines = lines[len(lines)-n:]
 	}
 	return strings.Join(lines, " | ")
+}
+
+// globMatch is an independent matcher for test-name patterns: "*" stands for
+// exactly one path component, "**" for zero or more.
+func globMatch(pattern, name []string) bool {
+	if len(pattern) == 0 {
+		return len(name) == 0
+	}
+	switch pattern[0] {
+	case "**":
+		for i := 0; i <= len(name); i++ {
+			if globMatch(pattern[1:], name[i:]) {
+				return true
+			}
+		}
+		return false
+	case "*":
+		return len(name) > 0 && globMatch(pattern[1:], name[1:])
+	default:
+		return len(name) > 0 && name[0] == pattern[0] && globMatch(pattern[1:], name[1:])
+	}
 }
